@@ -48,6 +48,16 @@ struct Workload {
   int compress_conn = -1;
   int sym_method = -1;
   int track = 0;
+  // Legacy-writer stub (simulates an encoder of an older bitstream, which the
+  // current library can no longer produce but still decodes):
+  //   0 = none (current encoder output as is)
+  //   1 = sequential mesh downgraded to bitstream 2.1 (fixed-width counts,
+  //       32-bit raw indices for >= 65536 points)
+  //   2 = kd-tree point cloud with unsigned integer attributes downgraded to
+  //       bitstream 2.2 (integer kd-tree method of the pre-2.3 layout)
+  //   3 = kd-tree point cloud, one float position attribute, bitstream 2.2
+  //       (float quantization method; payload from FloatPointsTreeEncoder)
+  int legacy = 0;
 
   Json ToJson() const;
   static Workload FromJson(const Json &j);
